@@ -19,6 +19,10 @@ Keys == IF scn.kind = "openrpc" THEN {"f1", "f4"}                               
 EarlyKeys == IF scn.kind = "openrpc" THEN {"f1", "f4"} ELSE {"base#f1", "base#f4"}
 ExpectedReply == [status |-> 200, ctype |-> "json", keys |-> Keys, same_as_direct |-> TRUE]
 Get == gets' = Append(gets, ExpectedReply) /\ UNCHANGED scn
+\* With a web UI configured (scn.ui: swagger / rapidoc / redoc; OpenAPI only) the application also serves the UI's index page at
+\* <base><ui path>/ and .../index.html: 200, HTML, and the page points at THIS application's specification URL.
+HasUi == "ui" \in DOMAIN scn /\ scn.ui # "none"
+ExpectedUi == [status |-> 200, ctype |-> "html", points_at_spec |-> TRUE]
 Next == Get
 Stable == \A i, j \in DOMAIN gets : gets[i] = gets[j]
 Complete == \A i \in DOMAIN gets : gets[i].keys = Keys
